@@ -95,6 +95,16 @@ def exhaustive_short(maxlen, entries):
 ENTRIES = ["Dns", "Flags", "Question", "RR", "DomainName", "Type", "Class", "QType", "QClass"]
 
 
+def enumerate_cases(length, entries):
+    """A cases covering every octet string of exactly `length` (3 or 4) octets: one case per prefix of
+    length-2 octets, each enumerating the 65,536 two-octet suffixes in-process"""
+    out = []
+    for e in entries:
+        for v in range(256 ** (length - 2)):
+            out.append("A %s %s 2" % (e, v.to_bytes(length - 2, "big").hex()))
+    return out
+
+
 def nested_names_msg(depth, rng=None):
     """answers: NS records whose owner names are progressively nested: a0; a1.a0; a2.a1.a0; ..."""
     labs = []
@@ -134,6 +144,7 @@ class C01(Prop):
     def streams(self, tier, rng):
         n = 400 if tier == "quick" else 4000
         s = [("exhaustive-len<=2", exhaustive_short(2, ENTRIES)),
+             ("exhaustive-len-3", enumerate_cases(3, ENTRIES)),
              ("corpus-all-entries", S.corpus_d(ENTRIES)),
              ("guards", guard_cases()),
              ("structured", S.structured_d(rng, n)),
@@ -154,12 +165,26 @@ class C01(Prop):
             for x in G.near_miss(rng, w, rn, 3)[:12]:
                 big.append(S.d("Dns", x))
         s.append(("big", big))
+        if tier == "thorough":
+            s.append(("exhaustive-len-4", enumerate_cases(4, ["DomainName", "Flags", "Type", "Class", "QType", "QClass"])))
         return s
 
     def view(self, case, line):
+        if case.startswith("A "):
+            return field(line, "panic") or line
         return "PANIC" if line.startswith("PANIC") else "NOPANIC"
 
+    def oracle(self, case, line):
+        if case.startswith("A "):
+            return None if field(line, "panic") == "0" else "a panic among the 65,536 inputs %s ++ xx xx: %s" % (case.split(" ")[2], line[:120])
+        return Prop.oracle(self, case, line)
+
+    def outcome(self, case, line):
+        return "enumerated-65536" if case.startswith("A ") else Prop.outcome(self, case, line)
+
     def nontrivial(self, case, line):
+        if case.startswith("A "):
+            return True
         e, w = case_wire(case)
         return len(w) >= (13 if e == "Dns" else 2)
 
@@ -167,7 +192,9 @@ class C01(Prop):
         return ("D cases on all nine decode entry points: every byte string of length <= 2 (exhaustive), the repository's "
                 "vectors on every entry point, length-guard inputs (cookie 0..65, address octet counts 0..size+2 x prefixes, "
                 "option/parameter/RDATA lengths), structured valid messages, near-miss and byte-level mutations, mutated "
-                "stand-alone elements, messages up to 65,538 octets; the harness also clones, compares, formats (Display, "
+                "stand-alone elements, messages up to 65,538 octets; every byte string of length 3 on all nine entry points "
+                "(and of length 4 on the name, flags and code entry points in the thorough tier) through in-process enumeration "
+                "(A cases: 65,536 inputs each, outcome counts and a digest of the results compared with the model); the harness also clones, compares, formats (Display, "
                 "Debug), queries accessors and re-encodes every accepted value under catch_unwind in a debug build with "
                 "overflow checks; non-trivial = input long enough to get past the first field; distinct by text")
 
@@ -411,6 +438,8 @@ class C04(Prop):
         w_ += ["W" + c[1:] for c in guard_cases()]
         w_ += ["W" + c[1:] for c in overlong_via_pointer()]
         st.append(("coq-reference-decoder", w_))
+        # every octet string of length 3 on the element entry points: verdicts AND values (digest) vs the model
+        st.append(("exhaustive-len-3-digest", enumerate_cases(3, ["DomainName", "Flags", "Question", "RR"])))
         return st
 
     def agree(self, case, il, ml):
@@ -420,7 +449,7 @@ class C04(Prop):
         return self.view(case, il) == self.view(case, ml)
 
     def view(self, case, line):
-        if case.startswith("W "):
+        if case.startswith("W ") or case.startswith("A "):
             return line
         d = parse_d(line)
         if d["status"] != "OK":
@@ -428,6 +457,8 @@ class C04(Prop):
         return "OK " + R.canon_fold(d["canon"])
 
     def oracle(self, case, line):
+        if case.startswith("A "):
+            return None
         if case.startswith("W "):
             return "implementation panicked: " + line[:200] if line.startswith("PANIC") else None
         d = parse_d(line)
